@@ -221,8 +221,9 @@ class _CallCanon(ast.NodeTransformer):
     positional parameters in order (semantics preserving; rules then see one spelling of a call).  The float('inf')
     spellings are unified as well."""
 
-    def __init__(self, sigs):
+    def __init__(self, sigs, msigs=None):
         self.sigs = sigs
+        self.msigs = msigs or {}
 
     def visit_Call(self, n):
         self.generic_visit(n)
@@ -231,6 +232,16 @@ class _CallCanon(ast.NodeTransformer):
             name = n.func.id
         elif isinstance(n.func, ast.Attribute) and isinstance(n.func.value, ast.Name) and n.func.value.id == "EoN":
             name = n.func.attr
+        if name is None and isinstance(n.func, ast.Attribute) and n.keywords:
+            # method of a package class called with its required parameters by keyword: Q.add(time=t, function=f, args=a).
+            # Builtin containers' methods of the same name take no keywords, so the keywords identify the method.
+            req = self.msigs.get(n.func.attr)
+            kw = [k.arg for k in n.keywords]
+            if req and None not in kw and not any(isinstance(a, ast.Starred) for a in n.args) \
+                    and kw[:len(req) - len(n.args)] == req[len(n.args):] and len(n.args) < len(req):
+                k = len(req) - len(n.args)
+                n.args.extend(x.value for x in n.keywords[:k])
+                n.keywords = n.keywords[k:]
         if name == "float" and len(n.args) == 1 and isinstance(n.args[0], ast.Constant) and isinstance(n.args[0].value, str) \
                 and n.args[0].value.lower() in ("inf", "infinity", "+inf"):
             n.args[0].value = "Inf"
@@ -273,8 +284,22 @@ def canonicalise_calls(trees):
                 for b in st.body:
                     if isinstance(b, ast.FunctionDef) and b.name == "__init__" and b.args.vararg is None:
                         sigs.setdefault(st.name, [x.arg for x in b.args.posonlyargs + b.args.args][1:])
+    # methods of package classes: required parameters (after self), when the method name is unique in the package
+    msigs, dup = {}, set()
     for m, t in trees.items():
-        _CallCanon(sigs).visit(t)
+        for st in t.body:
+            if isinstance(st, ast.ClassDef):
+                for b in st.body:
+                    if isinstance(b, ast.FunctionDef) and not b.name.startswith("__") and b.args.vararg is None:
+                        ps = [x.arg for x in b.args.posonlyargs + b.args.args][1:]
+                        req = ps[:len(ps) - len(b.args.defaults)] if b.args.defaults else ps
+                        if b.name in msigs:
+                            dup.add(b.name)
+                        msigs[b.name] = req
+    for d in dup:
+        msigs.pop(d, None)
+    for m, t in trees.items():
+        _CallCanon(sigs, msigs).visit(t)
         ast.fix_missing_locations(t)
 
 
